@@ -38,7 +38,9 @@ TNew ==
 
 TOp ==
   /\ l <= Len(Trace) /\ Trace[l].e = "op"
-  /\ LET t == Trace[l]  ks == SetOf(t.keys) IN
+  /\ LET t == Trace[l]
+         \* the selection is what the ARGUMENTS of the call say (documented reading); the harness logs both
+         ks == IF t.op \in {"pick", "omit"} /\ t.args # <<>> THEN Selected(t.args) ELSE SetOf(t.keys) IN
      CASE t.op = "test"   -> AddTest(t.s)
        [] t.op = "pt"     -> AddPT(t.s)
        [] t.op = "pick"   -> Pick(t.s, ks)
@@ -54,7 +56,9 @@ TObs ==
   /\ LET t == Trace[l]
          got == [fields |-> [k \in Keys |-> IF k \in DOMAIN t.fields THEN t.fields[k] ELSE 0], tests |-> t.tests, pts |-> t.pts]
          want == intended[t.s]
-     IN IF got = want THEN TRUE
+     IN IF t.panic # "" THEN Emit(<<[prop |-> "C16", kind |-> "panic", id |-> episode, line |-> l,
+                     detail |-> [schema |-> t.s, mode |-> t.mode, after |-> lastop, panic |-> t.panic]]>>)
+        ELSE IF got = want THEN TRUE
         ELSE Emit(<<[prop |-> "C16", kind |-> "schema-differs-from-hand-written", id |-> episode, line |-> l,
                      detail |-> [schema |-> t.s, mode |-> t.mode, after |-> lastop, got |-> got, want |-> want]]>>)
   /\ l' = l + 1 /\ UNCHANGED <<vars, episode>>
